@@ -40,7 +40,7 @@ class Config:
     max_depth: int = 2
     symbolic_bounds: bool = True
     # C16: extra statement shapes aimed at what the loop passes match; each entry is a kind of
-    # `ProgGen.shape` ("fold", "nest", "while", "licm", "hoist_if").  Empty = generator unchanged.
+    # `ProgGen.shape` ("fold", "nest", "while", "licm", "hoist_if", "unroll_perm").  Empty = generator unchanged.
     loop_shapes: list[str] = field(default_factory=list)
     shape_weight: int = 3
 
@@ -53,6 +53,7 @@ class ProgGen:
         self.nb = 0
         self.ext_sigs: dict[str, str] = {}
         self.helpers: list[str] = []
+        self.force_returns: list[tuple[str, str]] = []   # C16 shapes: top-level loop results to return
 
     def fresh(self, p: str = "v") -> str:
         self.n += 1
@@ -333,14 +334,16 @@ class ProgGen:
         leak_iv = r.random() < 0.1
         for cst in consts:
             v = self.fresh()
-            op = r.choice(["addi", "muli", "muli"])
-            a, b = (x, cst) if r.random() < 0.6 else (cst, x)
+            op = r.choice(["addi", "muli", "muli", "subi", "subi"])
+            a, b = (x, cst) if r.random() < 0.5 else (cst, x)
             lines.append(f"{in2}{v} = arith.{op} {a}, {b} : index")
             if x != iv and r.random() < 0.1:
                 p2.setdefault("index", []).append(x)     # a second use stops the folding chain there
             x = v
         if leak_iv:
             p2.setdefault("index", []).append(iv)
+            if r.random() < 0.5:
+                self.ext_call("index", iv, lines, in2)   # multi-use of the induction variable for sure
         p2.setdefault("index", []).append(x)
         self.ext_call("index", x, lines, in2)
         for a in accs:
@@ -354,6 +357,66 @@ class ProgGen:
         lines.append(ind + "}")
         for rr in res:
             pool.setdefault("index", []).append(rr)
+            if depth == 0:
+                self.force_returns.append((rr, "index"))
+
+    def shape_unroll_perm(self, pool: dict[str, list[str]], lines: list[str], ind: str, depth: int) -> None:
+        """constant-trip `scf.for` (what scf-for-loop-unroll matches) carrying 2–3 values whose yield
+        permutes / forwards block arguments across slots (swap, rotate, earlier-into-later,
+        fibonacci-style); the final values are observed (external call, and returned at top level)"""
+        r = self.rng
+        t = r.choice(["index", "index", "i32"])
+        k = r.choice([2, 2, 3])
+        lbv, stv = r.choice([0, 0, 1, -1]), r.choice([1, 1, 2])
+        trips = r.choice([0, 1, 2, 3, 3, 4])
+        lb = self.idx_const(lines, ind, [lbv])
+        ub = self.idx_const(lines, ind, [lbv + trips * stv - (r.randrange(stv) if trips else 0)])
+        st = self.idx_const(lines, ind, [stv])
+        # distinct initial values: one from the pool (often a function argument), fresh constants for the rest
+        inits = [self.pick(pool, t, lines, ind)]
+        for j, cv in enumerate(r.sample([0, 1, 2, 5, 7, -3, 11], k - 1)):
+            v = self.fresh("c")
+            lines.append(f"{ind}{v} = arith.constant {cv} : {t}")
+            inits.append(v)
+        r.shuffle(inits)
+        iv = self.fresh("i")
+        res, accs = self.loop_header(pool, lines, ind, iv, lb, ub, st, [t] * k, inits=inits)
+        in2 = ind + "  "
+        sm = self.fresh()
+        lines.append(f"{in2}{sm} = arith.addi {accs[0]}, {accs[1]} : {t}")
+        nxt = sm
+        if r.random() < 0.6:
+            ivt = iv
+            if t != "index":
+                ivt = self.fresh()
+                lines.append(f"{in2}{ivt} = arith.index_cast {iv} : index to {t}")
+            nxt = self.fresh()
+            lines.append(f"{in2}{nxt} = arith.addi {sm}, {ivt} : {t}")
+        if r.random() < 0.3:
+            self.ext_call(t, r.choice(accs + [nxt]), lines, in2)
+        pat = r.choice(["swap", "rotl", "rotr", "fib", "fwd", "random", "random"])
+        if pat == "swap":
+            ys = list(accs); ys[0], ys[-1] = ys[-1], ys[0]
+        elif pat == "rotl":
+            ys = accs[1:] + accs[:1]
+        elif pat == "rotr":
+            ys = accs[-1:] + accs[:-1]
+        elif pat == "fib":       # (next, cur[, prev]): every old value moves one slot later
+            ys = [nxt] + accs[:-1]
+        elif pat == "fwd":       # an earlier block argument forwarded into a later slot, rest recomputed / kept
+            ys = list(accs)
+            j = r.randrange(1, k)
+            ys[j] = accs[r.randrange(0, j)]
+            ys[0] = nxt
+        else:
+            ys = [r.choice(accs + [nxt]) for _ in range(k)]
+        lines.append(f"{in2}scf.yield " + ", ".join(ys) + " : " + ", ".join([t] * k))
+        lines.append(ind + "}")
+        for rr in res:
+            pool.setdefault(t, []).append(rr)
+            self.ext_call(t, rr, lines, ind)
+            if depth == 0:
+                self.force_returns.append((rr, t))
 
     def shape_nest(self, pool: dict[str, list[str]], lines: list[str], ind: str, depth: int) -> None:
         """perfectly nested pair of `scf.for` (what scf-for-loop-flatten matches): either both
@@ -629,6 +692,7 @@ class ProgGen:
     def program(self) -> dict[str, Any]:
         c = self.cfg
         self.n = 0; self.nb = 0; self.ext_sigs = {}; self.helpers = []
+        self.force_returns = []
         funcs: list[str] = []
         if c.calls and self.rng.random() < 0.4:
             funcs.append(self.helper())
@@ -654,6 +718,9 @@ class ProgGen:
                 self.stmt(pool, lines, "  ", 0)
         ret_tys = [self.rng.choice(all_t) for _ in range(self.rng.randint(1, 3))]
         rets = [self.pick(pool, t, lines, "  ") for t in ret_tys]
+        for v, t in self.force_returns[-4:]:     # only filled by C16 loop shapes (`loop_shapes` non-empty)
+            rets.append(v)
+            ret_tys.append(t)
         sig = ", ".join(f"{a}: {t}" for a, t in zip(args, arg_tys))
         main = (f"func.func @main({sig}) -> ({', '.join(ret_tys)}) {{\n" + "\n".join(lines)
                 + f"\n  func.return {', '.join(rets)} : {', '.join(ret_tys)}\n}}\n")
